@@ -464,3 +464,10 @@ def m_mem_replace(ex, m, args, tys, st, fn):
     old = ex.deref(r)
     ex.write_ref(r, new)
     return [(st, old)]
+
+
+@model(r"^<(?:std|core)::cmp::Ordering as (?:std::cmp::)?PartialEq>::(eq|ne)$")
+def m_ordering_eq(ex, m, args, tys, st, fn):
+    a, b = ex.deref(args[0]), ex.deref(args[1])
+    e = tm.eq(a.tag, b.tag)
+    return [(st, e if m.group(1) == "eq" else tm.not_(e))]
